@@ -583,7 +583,13 @@ fn run_job(job: &JobSpec, env: &WorkerEnv, sched: &Arc<Sched>, tid: usize, multi
     JobResult {
         obs: Obs {
             outcome,
-            out: std::mem::take(&mut writer.accepted),
+            out: {
+                let mut o = std::mem::take(&mut writer.accepted);
+                if writer.overflow_bytes > 0 {
+                    o.extend_from_slice(format!("\n[+{} bytes, digest {:016x}]", writer.overflow_bytes, writer.overflow.finish()).as_bytes());
+                }
+                o
+            },
             builder_called,
             vars: decls.vars,
             funcs: decls.funcs,
